@@ -127,6 +127,8 @@ class Ctx:
             self.add_patch(str(n), rnd, extra=n)
         # a second content for number 1 (same number, other bytes, other size)
         self.add_patch('1b', rnd, extra=17)
+        # a patch whose new binary is EMPTY (0 bytes: a recorded size of 0, the size "no file" would also have); offered as number 3
+        self.add_patch('z', random.Random(seed + 1), content=b'')
         # damage payloads
         for n in ('1', '2', '3'):
             new = self.p[n]['new']
@@ -141,12 +143,12 @@ class Ctx:
         self.infl['junkdl'] = None
         self.infl['empty'] = None
 
-    def add_patch(self, name, rnd, extra=0):
+    def add_patch(self, name, rnd, extra=0, content=None):
         new = bytearray(self.base)
         pos = rnd.randrange(0, len(new) - 20)
         ins = bytes(rnd.randrange(256) for _ in range(5 + extra))
         new[pos:pos + 3] = ins
-        new = bytes(new)
+        new = bytes(new) if content is None else content
         bp = os.path.join(self.tmp, 'base.bin')
         npth = os.path.join(self.tmp, 'new.bin')
         open(bp, 'wb').write(self.base)
@@ -426,3 +428,43 @@ def diff_traces(model, impl):
                 out.append((h, i, x, y))
                 break
     return out
+
+# ---------------------------------------------------------------- extraction cross-check
+def coq_crosscheck(tag, items, limit=400):
+    """items = [(kind, name, bytes)], kind in resp / pj / sj / b64.  The extracted model (driver `coqx`) prints, for each input,
+    the equation  <reader> <input> = <what the extracted code computed>  as a Coq term; one coqc run then proves every
+    equation by vm_compute + reflexivity inside the kernel.  An equation that does not check means that the OCaml code
+    the correspondence runs and the Gallina definitions the theorems are about disagree on that input (extraction,
+    the OCaml compiler, or the driver's glue).  Returns (number checked, list of problems)."""
+    items = items[:limit]
+    if not items:
+        return 0, []
+    work = os.path.join(CACHE, 'xc-%s-%d' % (tag, os.getpid()))
+    os.makedirs(work, exist_ok=True)
+    try:
+        f = os.path.join(work, 'in.ops')
+        with open(f, 'w') as fh:
+            for i, (kind, name, data) in enumerate(items):
+                fh.write('coqx %s x%d %s\n' % (kind, i, data.hex() or 'e'))
+        p = subprocess.run([DRIVER, f], capture_output=True, text=True, timeout=600)
+        eqs = [l.split(':', 2) for l in p.stdout.splitlines() if l.startswith('coqx:')]
+        if p.returncode != 0 or len(eqs) != len(items):
+            return 0, ['extraction cross-check: the driver answered %d of %d inputs (rc=%d) %s' % (len(eqs), len(items), p.returncode, p.stderr[-300:])]
+        v = os.path.join(work, 'xc_%s.v' % tag)
+        with open(v, 'w') as fh:
+            fh.write('From UV Require Import Base Codec Model Json JsonText JsonState JsonSj Signing.\nLocal Open Scope N_scope.\n')
+            for _, nm, term in eqs:
+                fh.write('Example %s : %s.\nProof. vm_compute. reflexivity. Qed.\n' % (nm, term))
+        q = sh('timeout 900 coqc -q -Q %s UV %s 2>&1' % (os.path.join(COQ, 'theories'), v), cwd=work, timeout=1000)
+        if q.returncode != 0:
+            m = re.search(r'line (\d+)', q.stdout)
+            which = ''
+            if m:
+                ln = int(m.group(1))
+                idx = max(0, (ln - 3) // 2)
+                if idx < len(items):
+                    which = ' (input %s %s: %s)' % (items[idx][0], items[idx][1], items[idx][2][:80].hex())
+            return 0, ['extraction cross-check: an equation computed by the extracted model does not hold in the kernel%s: %s' % (which, ' '.join(q.stdout.split())[:400])]
+        return len(items), []
+    finally:
+        shutil.rmtree(work, ignore_errors=True)
